@@ -50,7 +50,10 @@ def gen_cases(tier, seed):
                 "tt": rng.randrange(256), "count": prior_n,
                 "ents": [[0x2200 + k, 0, 8] for k in range(prior_n)]}
         cases.append({"kind": kind, "num": num, "present": present, "cfg": cfg, "dev0": dev0, "nid": rng.choice([1, 5, 127]),
-                      "seed": rng.randrange(1 << 30)})
+                      "seed": rng.randrange(1 << 30),
+                      # how each object is named when it is mapped: by numbers, 'Record.Member', or two names
+                      "spell": [rng.choice(["num", "num", "dotted", "names"]) for _ in m],
+                      "resave": i % 4 == 3})
     return cases
 
 
